@@ -9,13 +9,27 @@ let nat_ s = nat_of_int (int_of_string s)
 let rest tok = String.sub tok 1 (String.length tok - 1)
 let commas s = List.filter (fun x -> x <> "") (String.split_on_char ',' s)
 
+(* number of buffers of a datagram when the case does not say: 1 + len mod 6 (as the harness) *)
+let dflt_nb (l : string) = n_of_int (1 + int_of_string l mod 6)
+
 let parse_op (tok : string) : op list =
   let a = rest tok in
   match tok.[0] with
-  | 's' -> (match commas a with [l; ad] -> [OSend (n_of_string l, nat_ ad)] | _ -> failwith tok)
-  | 't' -> (match commas a with [l; ad] -> [OTry (n_of_string l, nat_ ad)] | _ -> failwith tok)
+  | 's' -> (match commas a with
+            | [l; ad] -> [OSend (n_of_string l, nat_ ad, dflt_nb l)]
+            | [l; ad; nb] -> [OSend (n_of_string l, nat_ ad, n_of_string nb)]
+            | _ -> failwith tok)
+  | 't' -> (match commas a with
+            | [l; ad] -> [OTry (n_of_string l, nat_ ad, dflt_nb l)]
+            | [l; ad; nb] -> [OTry (n_of_string l, nat_ ad, n_of_string nb)]
+            | _ -> failwith tok)
   | 'u' -> (match commas a with
-            | f :: ad :: ls -> [OTry2 (List.map n_of_string ls, z_of_string f, nat_ ad)]
+            | f :: ad :: ls ->
+                let one x = match String.split_on_char ':' x with
+                  | [l] -> (n_of_string l, dflt_nb l)
+                  | [l; nb] -> (n_of_string l, n_of_string nb)
+                  | _ -> failwith tok in
+                [OTry2 (List.map one ls, z_of_string f, nat_ ad)]
             | _ -> failwith tok)
   | 'c' -> [OConnect (nat_ a)]
   | 'd' -> [ODisconnect]
@@ -50,13 +64,14 @@ let b01 b = if b then "1" else "0"
 let seqs l = String.concat "." (List.map (fun s -> string_of_int (int_of_nat s)) l)
 
 (* msg_name of each datagram as of the latest EName events (seq -> address) *)
-let names : (int, int) Hashtbl.t = Hashtbl.create 64
+let names : (int, int * string) Hashtbl.t = Hashtbl.create 64
 let nm s = string_of_int (int_of_nat s) ^ "@" ^
-  (match Hashtbl.find_opt names (int_of_nat s) with Some a -> string_of_int a | None -> "?")
+  (match Hashtbl.find_opt names (int_of_nat s) with
+   | Some (a, nb) -> string_of_int a ^ "#" ^ nb | None -> "?")
 
 let str_event (e : event) : string =
   match e with
-  | EName l -> List.iter (fun (s, a) -> Hashtbl.replace names (int_of_nat s) (int_of_nat a)) l; ""
+  | EName l -> List.iter (fun ((s, a), nb) -> Hashtbl.replace names (int_of_nat s) (int_of_nat a, string_of_n nb)) l; ""
   | EConnect (d, r) -> Printf.sprintf "C%d=%s" (int_of_nat d) (string_of_z r)
   | EDisconnect r -> "D=" ^ string_of_z r
   | ESend (id, seq, len, ret) ->
